@@ -16,6 +16,9 @@ import DateutilVerif.Proofs.RRuleStrSet
 import DateutilVerif.Proofs.RRuleStrSpell
 import DateutilVerif.Proofs.RRuleStrOpts
 import DateutilVerif.Proofs.RRuleStrRule
+import DateutilVerif.Proofs.RRuleStrFold
+import DateutilVerif.Proofs.RRuleStrTzid
+import DateutilVerif.Proofs.RRuleStrDate
 
 namespace C13
 open RRuleStr
@@ -211,37 +214,92 @@ theorem empty_by_list_is_lost (x : StrIn) (h : x.orig.bymonthday = some []) :
     constructor arguments that build exactly `r` again, hence the same occurrences.  All hypotheses are explicit; the
     first is the class of the known finding D-C13-empty-by-list (there the statement is false on the real code), and the
     date values are taken over unchanged (`backArgs`): that `parser.parse` reads the compact text back is C02, tied here
-    by the correspondence and the oracle only. -/
+    by the correspondence and the oracle only.  (`strInOf 0`: `calendar.firstweekday()` is 0, the interpreter's default;
+    `str_roundtrip_rule_ambient` is the statement for every ambient value.) -/
 theorem str_roundtrip_rule (a : RRule.Args) (r : RRule.Rule) (h : RRule.construct a = .ok r) (hsp : a.bysetpos ≠ some [])
-    (hne : NoEmptyBy (RRule.origArgs a r)) (hpr : Printable (strInOf (RRule.origArgs a r)))
+    (hne : NoEmptyBy (RRule.origArgs a r)) (hpr : Printable (strInOf 0 (RRule.origArgs a r)))
     (hf : 0 ≤ (RRule.origArgs a r).freq)
     (o : Opts) (hu : o.unfold = false) (hfs : o.forceset = false) (hc : o.compatible = false) (kw : Bool) :
-    ∃ pa dt, parseRfc (toStr (strInOf (RRule.origArgs a r))) o kw = .ok (.rule pa (some dt) o.cache) ∧
+    ∃ pa dt, parseRfc (toStr (strInOf 0 (RRule.origArgs a r))) o kw = .ok (.rule pa (some dt) o.cache) ∧
       RRule.construct (backArgs (RRule.origArgs a r) pa) = .ok r :=
   parse_toStr_constructs_same_rule a r h hsp hne hpr hf o hu hfs hc kw
 
-/-- **the same with the process-wide `calendar.firstweekday()` as an explicit input** (`constructW k`, C01).  `str_roundtrip*`
-    and `str_roundtrip_rule` above are the case `k = 0` (the interpreter's default).  Under `calendar.setfirstweekday(k)` the
-    rule comes back exactly when `r.wkst ≠ 0 ∨ k = 0`: `__str__` omits WKST when `_wkst == 0`, so a Monday-week rule is
-    rebuilt with the ambient week start — known finding D-C13-ambient-wkst, `ambient_wkst_counterexample`.  (The one-line
-    repair, printing `WKST=MO` too, changes the text of every `str(rule)` and `tests/test_rrule.py::testStrAppendRRULEToken`
-    pins that text, so it is listed, not fixed.) -/
+/-- **the same with the process-wide `calendar.firstweekday()` as an explicit input** (`constructW k`, C01; `strInOf k`:
+    `__str__` reads it too since the repair of D-C13-ambient-wkst: `if self._wkst or calendar.firstweekday():`).
+    `str_roundtrip*` and `str_roundtrip_rule` above are the case `k = 0` (the interpreter's default).  Under
+    `calendar.setfirstweekday(k)` the rule comes back for EVERY `k` and every week start — the former hypothesis
+    `r.wkst ≠ 0 ∨ k = 0` (known finding D-C13-ambient-wkst: `__str__` omitted WKST whenever `_wkst == 0`, so a Monday-week
+    rule was rebuilt with the ambient week start) is gone. -/
 theorem str_roundtrip_rule_ambient (k : Int) (a : RRule.Args) (r : RRule.Rule) (h : RRule.constructW k a = .ok r)
     (hsp : a.bysetpos ≠ some [])
-    (hne : NoEmptyBy (RRule.origArgs (RRule.resolveW k a) r)) (hpr : Printable (strInOf (RRule.origArgs (RRule.resolveW k a) r)))
-    (hf : 0 ≤ (RRule.origArgs (RRule.resolveW k a) r).freq) (hw : r.wkst ≠ 0 ∨ k = 0)
+    (hne : NoEmptyBy (RRule.origArgs (RRule.resolveW k a) r)) (hpr : Printable (strInOf k (RRule.origArgs (RRule.resolveW k a) r)))
+    (hf : 0 ≤ (RRule.origArgs (RRule.resolveW k a) r).freq)
     (o : Opts) (hu : o.unfold = false) (hfs : o.forceset = false) (hc : o.compatible = false) (kw : Bool) :
-    ∃ pa dt, parseRfc (toStr (strInOf (RRule.origArgs (RRule.resolveW k a) r))) o kw = .ok (.rule pa (some dt) o.cache) ∧
+    ∃ pa dt, parseRfc (toStr (strInOf k (RRule.origArgs (RRule.resolveW k a) r))) o kw = .ok (.rule pa (some dt) o.cache) ∧
       RRule.constructW k (backArgs (RRule.origArgs (RRule.resolveW k a) r) pa) = .ok r :=
-  parse_toStr_constructs_same_rule_ambient k a r h hsp hne hpr hf hw o hu hfs hc kw
+  parse_toStr_constructs_same_rule_ambient k a r h hsp hne hpr hf o hu hfs hc kw
 
-/-- the excluded case `_wkst = 0 ∧ k ≠ 0` is real: WEEKLY, interval 2, BYDAY=TU,SU, explicit wkst=MO, ambient 6: the rebuilt
-    rule has week start 6 and is a different rule -/
-theorem ambient_wkst_counterexample :
+/-- **written under ambient `k`, read under ambient `k'`**: the rule comes back whenever the text carries WKST
+    (`r.wkst ≠ 0 ∨ k ≠ 0`: then the reader's `calendar.firstweekday()` is irrelevant) or the reader's week starts on Monday
+    (`k' = 0`).  The remaining case — a Monday-week rule printed under the default first weekday and read under another one —
+    is `cross_ambient_counterexample`: there the text has no WKST (RFC 5545's default is MO; `rrule()` documents
+    `calendar.firstweekday()` as its default), and the property's "rrulestr(str(rule))" is read as one process state. -/
+theorem str_roundtrip_rule_cross_ambient (k k' : Int) (a : RRule.Args) (r : RRule.Rule) (h : RRule.constructW k a = .ok r)
+    (hsp : a.bysetpos ≠ some [])
+    (hne : NoEmptyBy (RRule.origArgs (RRule.resolveW k a) r)) (hpr : Printable (strInOf k (RRule.origArgs (RRule.resolveW k a) r)))
+    (hf : 0 ≤ (RRule.origArgs (RRule.resolveW k a) r).freq) (hw : r.wkst ≠ 0 ∨ k ≠ 0 ∨ k' = 0)
+    (o : Opts) (hu : o.unfold = false) (hfs : o.forceset = false) (hc : o.compatible = false) (kw : Bool) :
+    ∃ pa dt, parseRfc (toStr (strInOf k (RRule.origArgs (RRule.resolveW k a) r))) o kw = .ok (.rule pa (some dt) o.cache) ∧
+      RRule.constructW k' (backArgs (RRule.origArgs (RRule.resolveW k a) r) pa) = .ok r :=
+  parse_toStr_constructs_same_rule_cross k k' a r h hsp hne hpr hf hw o hu hfs hc kw
+
+/-- **the property's first sentence at the level of occurrences** (C13 ∘ C01's iteration model): for every rule with a NAIVE
+    start (`a.tz = 0`), built under any ambient first weekday `k`, `rrulestr(str(rule))` is a single rule whose DTSTART value
+    is the printed start WITHOUT any zone parameter, and the arguments it hands to the constructor (`backArgsNaive`: naive
+    start) build a rule whose iteration equals the rule's for EVERY fuel — the same occurrences, in the same order, ending
+    the same way (`RRule.iter`: the values yielded during the first `fuel` periods and the generator's status).
+    Hypotheses as in `str_roundtrip_rule_ambient` (NoEmptyBy = the known finding D-C13-empty-by-list; the two date texts are
+    read back by `parser.parse`: C02's `parse_render_compact` for the form `YYYYMMDDTHHMMSS`, tied here by the correspondence). -/
+theorem str_roundtrip_occurrences (k : Int) (a : RRule.Args) (r : RRule.Rule) (h : RRule.constructW k a = .ok r) (hnaive : a.tz = 0)
+    (hsp : a.bysetpos ≠ some [])
+    (hne : NoEmptyBy (RRule.origArgs (RRule.resolveW k a) r)) (hpr : Printable (strInOf k (RRule.origArgs (RRule.resolveW k a) r)))
+    (hf : 0 ≤ (RRule.origArgs (RRule.resolveW k a) r).freq)
+    (o : Opts) (hu : o.unfold = false) (hfs : o.forceset = false) (hc : o.compatible = false) (kw : Bool) :
+    ∃ pa r', parseRfc (toStr (strInOf k (RRule.origArgs (RRule.resolveW k a) r))) o kw =
+        .ok (.rule pa (some (showDT (sixOf r.dtstart), [], o.po)) o.cache) ∧
+      RRule.constructW k (backArgsNaive (RRule.origArgs (RRule.resolveW k a) r) pa) = .ok r' ∧
+      ∀ fuel, RRule.iter r' fuel = RRule.iter r fuel ∧ RRule.iterDT r' fuel = RRule.iterDT r fuel :=
+  same_occurrences_ambient k a r h hnaive hsp hne hpr hf o hu hfs hc kw
+
+-- non-vacuity: the witness rule (naive start) under ambient 6 really yields its four occurrences Aug 5, 10, 19, 24 1997
+example : ambientWitness.tz = 0 ∧
+    (do let r ← RRule.constructW 6 ambientWitness
+        pure ((RRule.iterDT r 6).1.map (fun (d : DT) => (d.m, d.d)))) = .ok [(8, 5), (8, 10), (8, 19), (8, 24)] := by
+  decide +kernel
+
+/-- the former counterexample of D-C13-ambient-wkst as a regression fact: WEEKLY, interval 2, BYDAY=TU,SU, explicit wkst=MO,
+    ambient 6: the text now carries `WKST=MO` (`some 0`), the rebuilt rule has week start 0 and is the same rule
+    (before the repair: `(0, 6, …, false)`) -/
+theorem ambient_wkst_witness_roundtrips :
     (do let r ← RRule.constructW 6 ambientWitness
         let o := RRule.origArgs (RRule.resolveW 6 ambientWitness) r
-        let r' ← RRule.constructW 6 (backArgs o (argsOf {} (strInOf o)))
-        pure (r.wkst, r'.wkst, decide (r' = r))) = .ok (0, 6, false) := RRuleStr.ambient_wkst_counterexample
+        let r' ← RRule.constructW 6 (backArgs o (argsOf {} (strInOf 6 o)))
+        pure (r.wkst, r'.wkst, (argsOf {} (strInOf 6 o)).wkst, decide (r' = r))) = .ok (0, 0, some 0, true) :=
+  RRuleStr.ambient_wkst_witness_roundtrips
+
+/-- the case `str_roundtrip_rule_cross_ambient` excludes is real: the same rule printed under ambient 0 and read under ambient 6 -/
+theorem cross_ambient_counterexample :
+    (do let r ← RRule.constructW 0 ambientWitness
+        let o := RRule.origArgs (RRule.resolveW 0 ambientWitness) r
+        let r' ← RRule.constructW 6 (backArgs o (argsOf {} (strInOf 0 o)))
+        pure (r.wkst, r'.wkst, decide (r' = r))) = .ok (0, 6, false) := RRuleStr.cross_ambient_counterexample
+
+-- non-vacuity of the ambient statement in the formerly excluded case: `_wkst = 0`, `k = 6`, every hypothesis holds
+example : ∃ r, RRule.constructW 6 ambientWitness = .ok r ∧ r.wkst = 0 ∧
+    NoEmptyBy (RRule.origArgs (RRule.resolveW 6 ambientWitness) r) ∧
+    0 ≤ (RRule.origArgs (RRule.resolveW 6 ambientWitness) r).freq := by
+  refine ⟨_, rfl, by decide +kernel, ?_, by decide +kernel⟩
+  constructor <;> decide +kernel
 
 /-- a rule with most things in it: nth weekdays of both signs, negative list members, WKST, INTERVAL, UNTIL, year < 1000 -/
 def sample : StrIn :=
@@ -330,5 +388,179 @@ example : ∃ rr ex, setOf {} sampleLines false false false =
           (some (lit "19970902T090000", [], {})) false false) :=
   ⟨_, _, rfl⟩
 example : ∃ r, parseRfc (lit "FREQ=DAILY;COUNT=2") { forceset := true } = .ok r := ⟨_, rfl⟩
+
+/-! ## 9. the source translation: prefix of `_parse_rfc`, unfold loop, parameter loop (`Generated/RRuleStrKernels.lean`)
+
+`harness/translate_str.py` re-translates, on every run, every statement of `_rrulestr._parse_rfc` up to and including
+`if unfold: … else: lines = s.split()` (`Gen.rrsPrefix`, with the `while` loop as `Gen.rrsPrefixLoop`), every statement of
+`_parse_date_value` up to and including `for parm in parms:` (`Gen.rrsDateParms`) and the statement that attaches the
+looked-up zone to a parsed date (`Gen.rrsAttach`).  The obligations below tie them to the hand model, so a behavioural
+edit of those statements breaks a named obligation (or the translation) on the next run. -/
+
+/-- the translated `while i < len(lines):` loop, given `len(lines) + 1` units of fuel, never runs out of fuel and leaves
+    exactly `ICal.unfold lines` — for EVERY list of lines -/
+theorem gen_unfold_loop_eq_model (lines : List (List Char)) :
+    ∃ n, Gen.rrsPrefixLoop (lines.length + 1) 0 lines = .ok (n, ICal.unfold lines) := loop_eq_unfold lines
+
+/-- the translated prefix of `_parse_rfc` = the model's: flags, name table of the text as written, upper-cased text,
+    ValueError for a blank text, `lines` = `linesOf` — for every text and all flags -/
+theorem gen_prefix_eq_model (s0 : List Char) (u f c : Bool) :
+    Gen.rrsPrefix s0 u f c =
+      if (ICal.strip (upper s0)).isEmpty then .error .ValueError
+      else .ok (f || c, u || c, tzidTable s0 (u || c), upper s0, linesOf (upper s0) (u || c)) :=
+  RRuleStr.gen_prefix_eq_model s0 u f c
+
+/-- the translated parameter loop of `_parse_date_value` = the model's `dateParmsOk` / `resolveTzid`, for every parameter
+    list, every name table and `tzids` None / callable / mapping (`lk` = which function does the lookup) -/
+theorem gen_dateParms_eq_model (parms : List (List Char)) (t : StrPy.Dict) (k : StrPy.TzidsKind) (lk : StrPy.Lookup)
+    (hk : lookupOf k = some lk) :
+    Gen.rrsDateParms parms t k =
+      match dateParmsOk parms with
+      | .error _ => .error .ValueError
+      | .ok _ => .ok ((resolveTzid t parms).map (StrPy.Zone.looked lk), !(restParms parms).isEmpty) :=
+  RRuleStr.gen_dateParms_eq_model parms t k lk hk
+
+/-- a `tzids` argument that is neither None, callable nor a mapping is a ValueError at the first TZID parameter found in the table -/
+example : Gen.rrsDateParms [lit "TZID=X"] [(lit "X", lit "x")] .other = .error .ValueError := by decide
+example : Gen.rrsDateParms [lit "VALUE=DATE-TIME", lit "TZID=X"] [(lit "X", lit "x")] .callable =
+    .ok (some (.looked .call (lit "x")), true) := by decide
+
+/-! ## 10. folding: unfold ∘ fold = id -/
+
+/-- **`unfold (fold s) = s`.**  Take any logical lines, cut each into a first piece and ANY number of continuation pieces at
+    ANY positions (`Folded`: pieces may be empty or one character long, so consecutive continuation lines, folds right
+    after `;` `,` `=` `:`, inside `TZID=`, inside a name, and right after a space at the end of the FIRST piece are all
+    covered), write every piece on its own physical line (continuations behind one space), end every physical line with
+    `\n` or `\r\n` chosen line by line: `linesOf text true` — `splitlines()` followed by the unfold loop — gives exactly the
+    logical lines back.  Hypotheses (`Folded.ok`): the first piece has a visible character and does not begin with a space;
+    NO CONTINUATION PIECE ENDS IN WHITESPACE.  That last restriction is the code's, not the proof's: see
+    `fold_after_space_in_continuation_loses_it` (known finding D-C13-fold-after-space). -/
+theorem unfold_fold (fs : List Folded) (hok : ∀ f ∈ fs, f.ok) (ph : List (List Char × Bool))
+    (hph : ph.map (·.1) = (fs.map Folded.physical).flatten)
+    (hnb : ∀ p ∈ ph, ∀ c ∈ p.1, ICal.isLineBreak c = false) :
+    linesOf (ph.map (fun p => p.1 ++ brk p.2)).flatten true = fs.map Folded.logical := by
+  unfold linesOf unfoldLines ICal.splitLines
+  simp only [if_true]
+  rw [splitLines_terminated ph hnb, List.reverse_nil, List.nil_append, hph, unfold_physical fs hok]
+
+/-- the same about the SOURCE translation: on a text whose upper-cased form is such a folded text, with `unfold` or
+    `compatible` set, the translated prefix of `_parse_rfc` ends with `lines` = the (upper-cased) logical lines -/
+theorem unfold_fold_source (s0 : List Char) (fs : List Folded) (hok : ∀ f ∈ fs, f.ok) (ph : List (List Char × Bool))
+    (hph : ph.map (·.1) = (fs.map Folded.physical).flatten)
+    (hnb : ∀ p ∈ ph, ∀ c ∈ p.1, ICal.isLineBreak c = false)
+    (hs : upper s0 = (ph.map (fun p => p.1 ++ brk p.2)).flatten) (hne : (ICal.strip (upper s0)).isEmpty = false)
+    (u f c : Bool) (hu : (u || c) = true) :
+    Gen.rrsPrefix s0 u f c = .ok (f || c, true, tzidTable s0 true, upper s0, fs.map Folded.logical) := by
+  rw [RRuleStr.gen_prefix_eq_model, hne, hu, hs, unfold_fold fs hok ph hph hnb]
+  simp
+
+/-- a DTSTART line folded three times: after `;`, inside `TZID=`, right after the space that ends the first piece … -/
+def foldedSample : Folded := { first := lit "DTSTART ", conts := [lit ";TZ", lit "ID=A", lit "", lit "B:19970902T090000"] }
+
+example : foldedSample.ok := ⟨⟨'D', lit "TSTART", by decide, by decide⟩, by decide⟩
+example : linesOf (lit "DTSTART \n ;TZ\r\n ID=A\n \n B:19970902T090000\nRRULE:FREQ=DAILY\n") true =
+    [lit "DTSTART ;TZID=AB:19970902T090000", lit "RRULE:FREQ=DAILY"] := by decide
+
+/-- **the excluded case is real** (known finding D-C13-fold-after-space): a fold right after a space that ENDS A CONTINUATION
+    piece loses the space — the loop appends the `rstrip()`ped continuation line.  `DTSTART;` / ` TZID=EASTERN ` /
+    ` STANDARD TIME:…` unfolds to `…TZID=EASTERNSTANDARD TIME…`, while the TZID pre-scan (which uses `re.sub`) records
+    `EASTERN STANDARD TIME`: the parameter is not found in the table and the zone is silently dropped. -/
+theorem fold_after_space_in_continuation_loses_it :
+    ICal.unfold [lit "DTSTART;", lit " TZID=EASTERN ", lit " STANDARD TIME:19970902T090000"] =
+      [lit "DTSTART;TZID=EASTERNSTANDARD TIME:19970902T090000"] ∧
+    stripFolds (lit "DTSTART;\n TZID=EASTERN \n STANDARD TIME:19970902T090000") =
+      lit "DTSTART;TZID=EASTERN STANDARD TIME:19970902T090000" ∧
+    tzidOf (lit "DTSTART;\n TZID=Eastern \n Standard Time:19970902T090000") { unfold := true }
+      [lit "TZID=EASTERNSTANDARD TIME"] = none := by decide
+
+/-! ## 11. TZID: the name handed to the lookup, the zone of the start -/
+
+/-- **the TZID found is the parameter value as written, regardless of letter case and parameter order.**
+    The text searched (`s0`, or `re.sub(r'\r?\n ', '', s0)` when unfolding — so the parameter may be folded anywhere, inside
+    `TZID=` too) has the form `pre ++ kw ++ name ++ d :: post`: `kw` is `TZID=` in ANY letter case, `name` is non-empty and
+    free of `:` `;` (ANY letter case), `d` is `:` or `;`, no earlier occurrence of the pattern starts inside `pre`, and every
+    later occurrence of the same name up to letter case is spelled the same way (a later table entry overwrites an earlier
+    one).  The line's (upper-cased) parameters are ANY list `l1 ++ [TZID=NAME] ++ l2` in which no other parameter begins with
+    `TZID=` — the TZID parameter may stand before or after `VALUE=…`.  Then the name handed to the `tzids` lookup is `name`,
+    exactly as written.  (`hafter`: the upper-cased name does not itself contain `TZID=`.) -/
+theorem tzid_found (s0 pre kw name post : List Char) (d : Char) (o : Opts)
+    (htxt : (if o.unfold || o.compatible then stripFolds s0 else s0) = pre ++ (kw ++ name ++ d :: post))
+    (hkw : upper kw = lit "TZID=") (hne : name ≠ []) (hname : ∀ c ∈ name, c ≠ ':' ∧ c ≠ ';') (hd : d = ':' ∨ d = ';')
+    (hpre : NoMatchBefore pre.length (pre ++ (kw ++ name ++ d :: post)))
+    (hlater : ∀ n ∈ findTzids post, upper n = upper name → n = name)
+    (l1 l2 : List (List Char)) (h1 : ∀ q ∈ l1, startsWith q (lit "TZID=") = false)
+    (h2 : ∀ q ∈ l2, startsWith q (lit "TZID=") = false)
+    (hafter : afterLastTzid (lit "TZID=" ++ upper name) = upper name) :
+    tzidOf s0 o (l1 ++ (lit "TZID=" ++ upper name) :: l2) = some name := by
+  unfold tzidOf tzidTable
+  rw [htxt, findTzids_found pre kw name post d hkw hne hname hd hpre,
+    resolveTzid_one _ l1 l2 _ h1 h2 (by simp [startsWith, lit]), hafter]
+  exact tzidLookup_first name _ hlater
+
+/-- … and on the SOURCE translation: with that table, the translated parameter loop ends with the zone
+    `<lookup>(name)` — `tz.gettz(name)`, `tzids(name)` or `tzids.get(name)` — when the other parameters are acceptable -/
+theorem tzid_found_source (s0 pre kw name post : List Char) (d : Char) (o : Opts)
+    (htxt : (if o.unfold || o.compatible then stripFolds s0 else s0) = pre ++ (kw ++ name ++ d :: post))
+    (hkw : upper kw = lit "TZID=") (hne : name ≠ []) (hname : ∀ c ∈ name, c ≠ ':' ∧ c ≠ ';') (hd : d = ':' ∨ d = ';')
+    (hpre : NoMatchBefore pre.length (pre ++ (kw ++ name ++ d :: post)))
+    (hlater : ∀ n ∈ findTzids post, upper n = upper name → n = name)
+    (l1 l2 : List (List Char)) (h1 : ∀ q ∈ l1, startsWith q (lit "TZID=") = false)
+    (h2 : ∀ q ∈ l2, startsWith q (lit "TZID=") = false)
+    (hafter : afterLastTzid (lit "TZID=" ++ upper name) = upper name)
+    (hparms : dateParmsOk (l1 ++ (lit "TZID=" ++ upper name) :: l2) = .ok ())
+    (k : StrPy.TzidsKind) (lk : StrPy.Lookup) (hk : lookupOf k = some lk) :
+    ∃ vf, Gen.rrsDateParms (l1 ++ (lit "TZID=" ++ upper name) :: l2) (tzidTable s0 (o.unfold || o.compatible)) k =
+      .ok (some (.looked lk name), vf) := by
+  have h := tzid_found s0 pre kw name post d o htxt hkw hne hname hd hpre hlater l1 l2 h1 h2 hafter
+  unfold tzidOf at h
+  rw [RRuleStr.gen_dateParms_eq_model _ _ k lk hk, hparms, h]
+  exact ⟨_, rfl⟩
+
+-- non-vacuity: lower-case `tzid=`, mixed-case name, TZID after VALUE, folded inside `TZID=` and inside the name
+example : tzidOf (lit "dtstart;value=date-time;tz\n id=America/New\r\n _York:19970902T090000\nrrule:freq=daily") { unfold := true }
+    [lit "VALUE=DATE-TIME", lit "TZID=AMERICA/NEW_YORK"] = some (lit "America/New_York") :=
+  tzid_found _ (lit "dtstart;value=date-time;") (lit "tzid=") (lit "America/New_York") (lit "19970902T090000\nrrule:freq=daily") ':'
+    _ (by decide) (by decide) (by decide) (by decide) (Or.inl rfl) (by decide) (by decide) [lit "VALUE=DATE-TIME"] []
+    (by decide) (by decide) (by decide)
+
+/-- **the zone of a date value** (the statement translated into `Gen.rrsAttach`, for DTSTART and EXDATE alike):
+    * a `TZID` zone and a date text WITHOUT a zone of its own (the naive compact form): the date gets the looked-up zone —
+      for `DTSTART;TZID=name:…` that is `tzids(name)`, the zone `rrule(dtstart=datetime(…, tzinfo=tzids(name)))` has;
+    * no `TZID`: the zone is whatever `parser.parse` gave the text — none for the naive form (the keyword construction with a
+      naive start), the text's own zone for `…Z` (UTC; what `ignoretz` / `tzinfos` do inside `parser.parse` is C02/C15);
+    * a `TZID` zone AND a zone in the text: ValueError ("DTSTART/EXDATE specifies multiple timezone"). -/
+theorem date_zone (z z' : StrPy.Zone) (dz : Option StrPy.Zone) :
+    Gen.rrsAttach (some z) none = .ok (some z) ∧
+    Gen.rrsAttach none dz = .ok dz ∧
+    Gen.rrsAttach (some z) (some z') = .error .ValueError := ⟨rfl, by cases dz <;> rfl, rfl⟩
+
+/-- `DTSTART;TZID=name:<naive>` end to end on the source translation: the parameter loop hands `name` as written to the lookup
+    and the attach statement puts that zone on the naive date -/
+theorem dtstart_tzid_zone (parms : List (List Char)) (t : StrPy.Dict) (k : StrPy.TzidsKind) (lk : StrPy.Lookup) (name : List Char)
+    (vf : Bool) (h : Gen.rrsDateParms parms t k = .ok (some (.looked lk name), vf)) :
+    (Gen.rrsDateParms parms t k >>= fun r => Gen.rrsAttach r.1 none) = .ok (some (.looked lk name)) := by
+  rw [h]; rfl
+
+example : Gen.rrsAttach none (some .fromText) = .ok (some .fromText) := (date_zone .fromText .fromText _).2.1
+
+/-! ## 12. the date texts of `str(rule)` are read back (C13 ∘ C02) -/
+
+/-- **`parser.parse` reads the DTSTART / UNTIL text of `str(rule)` back as the naive datetime it was printed from.**
+    `showDT (sixOf t)` — what `__str__` prints, `'%04d' % year + strftime('%m%dT%H%M%S')` — IS C02's compact template
+    `YYYYMMDDTHHMMSS` (`showDT_eq_renderCompact`, every valid datetime, years 1..9999 zero-padded), and C02's `parse_compact`
+    (the parser model, any character classifier / two-digit-year pivot / default / `ignoretz` / plain `tzinfos`) gives that
+    datetime with microsecond 0 and NO zone.  This discharges, on the models, the assumption `backArgs` / `backArgsNaive`
+    make about the two date values in `str_roundtrip_rule*` and `str_roundtrip_occurrences` (a rule's `dtstart` and `until`
+    have microsecond 0: C01's constructor). -/
+theorem date_text_read_back (cls : Char → PM.CClass) [PM.AsciiOK cls] (yf : Bool) (year century : Int) (o : PM.Opts)
+    (tznames : List PM.Token) (tzi : PM.TzInfos) (ho : PM.PlainOpts o tzi) (dflt : DT) (hdv : dflt.Valid)
+    (t : DT) (ht : t.Valid) :
+    PM.parse cls (PM.Info.default false yf year century) o tznames tzi dflt (showDT (sixOf t)) =
+      .ok { dt := { t with us := 0 }, tz := .naive, tokens := none } := by
+  rw [showDT_eq_renderCompact t ht]
+  exact PM.parse_compact cls yf year century o tznames tzi ho dflt hdv t ht .tHMS
+
+example : showDT (sixOf ⟨999, 1, 2, 3, 4, 5, 0⟩) = lit "09990102T030405" := by
+  rw [showDT_eq_renderCompact _ (by decide)]; decide
 
 end C13
